@@ -47,7 +47,16 @@ func (eval Evaluator) Evaluate(ct *rlwe.Ciphertext, p interface{}, targetScale r
 		phe = p
 	}
 
-	return eval.Evaluator.Evaluate(ct, phe, targetScale, 1, &simEvaluator{eval.Parameters, eval.InvariantTensoring})
+	return eval.Evaluator.Evaluate(ct, phe, targetScale, eval.levelsConsumedPerRescaling(), &simEvaluator{eval.Parameters, eval.InvariantTensoring})
+}
+
+// levelsConsumedPerRescaling returns the number of levels consumed per rescaling:
+// one with the standard tensoring, none with the scale-invariant tensoring (rescaling is then a no-op).
+func (eval Evaluator) levelsConsumedPerRescaling() int {
+	if eval.InvariantTensoring {
+		return 0
+	}
+	return 1
 }
 
 // EvaluateFromPowerBasis evaluates a polynomial using the provided [polynomial.PowerBasis], holding pre-computed powers of X.
@@ -69,7 +78,7 @@ func (eval Evaluator) EvaluateFromPowerBasis(pb polynomial.PowerBasis, p interfa
 		return nil, fmt.Errorf("cannot EvaluateFromPowerBasis: X^{1} is nil")
 	}
 
-	return eval.Evaluator.Evaluate(pb, phe, targetScale, 1, &simEvaluator{eval.Parameters, eval.InvariantTensoring})
+	return eval.Evaluator.Evaluate(pb, phe, targetScale, eval.levelsConsumedPerRescaling(), &simEvaluator{eval.Parameters, eval.InvariantTensoring})
 }
 
 // CoefficientGetter is a struct that implements the
